@@ -88,7 +88,7 @@ def run(ctx):
     ctx.assume('-0.4 at 0.55um within 4 ulp (the code computes (-0.4*chi)/chi)',
                'queries within 1e-12 relative of a table end: inside/outside is a don\'t-care; node queries are made in the table\'s own unit',
                'tables not covering V or not increasing are outside the quantifier')
-    ctx.require_events('query:same-length-and-ends-as-table', 'Extinction.get_av:post', 'pair:chi-scaling', 'pair:units', 'roundtrip:pickle', 'roundtrip:table',
+    ctx.require_events('roundtrip:table-used-further-by-the-caller', 'query:same-length-and-ends-as-table', 'Extinction.get_av:post', 'pair:chi-scaling', 'pair:units', 'roundtrip:pickle', 'roundtrip:table',
                        'roundtrip:file', 'at-V', 'history:chi-reassigned', 'history:table-replaced', 'history:wav-reassigned', 'query:scalar', 'V-on-node', 'roundtrip:file-defaults', 'history:chi-scaled-with-augmented-assignment')
     ctx.require_regimes('opacities:many-decades-from-1', 'rows=2', 'rows>=100', 'query:outside', 'query:node', 'query:inside')
     n_tab = 150 if ctx.quick else 4000
@@ -269,8 +269,21 @@ def run(ctx):
         try:
             lp = pickle.loads(pickle.dumps(law, 2))
             ctx.event('roundtrip:pickle')
-            lt = Extinction.from_table(law.to_table())
+            tb_ = law.to_table()
+            lt = Extinction.from_table(tb_)
             ctx.event('roundtrip:table')
+            if it % 2 == 0:
+                # the caller goes on using the table the law was made from (whole-column / whole-table operations: another unit for a
+                # second law, another row order): the first law must not follow
+                tb_['wav'].convert_unit_to(u.nm if tb_['wav'].unit != u.nm else u.micron)
+                lt2_ = Extinction.from_table(tb_)
+                g2_ = np.asarray(lt2_.get_av(q), float)
+                if not np.all(np.abs(g2_ - base) <= rel_tol(tw_um, chi_native, qs_um[:12], 1e-11) * np.abs(base)):
+                    ctx.violation('roundtrip:table-changes-law', 'a law made from the same table after its wavelength column was converted to another unit differs',
+                                  dict(wit, before=base, after=g2_))
+                tb_.reverse()
+                tb_.sort('chi')
+                ctx.event('roundtrip:table-used-further-by-the-caller')
         except Exception as exc:
             ctx.raised(exc, 'roundtrip:raised', 'pickle/table round trip raised: %r' % (exc,), wit)
             lp = lt = None
